@@ -191,8 +191,24 @@ class World:
                 self.stepinfo[id(el)] = {"deps": {id(d): self.gen[id(d)] for d in self.deps_of(el)}, "desc": desc,
                                          "objmap": objmap, "opts": {}, "pars": pars}
 
+    def _lay(self, u, link, w):
+        """One link laid through the singular call, the bulk call (a list, a one-shot generator) or a one-link path, in
+        turn: growth after a step is growth whichever construction call made it (round 18: C19r)."""
+        self._forms = getattr(self, "_forms", 0) + 1
+        f = self._forms % 4
+        if f == 1:
+            self.net.add_links([(u, link, w)])
+        elif f == 2:
+            self.net.add_link(u, link, w)
+        elif f == 3:
+            self.net.add_links((t for t in [(u, link, w)]))
+        else:
+            self.net.add_path((u, link, w))
+        self.st.rec.count("links_laid_by_form_%d" % f) if hasattr(self.st, "rec") else None
+        return self.net
+
     def op_add_branch(self):
-        self.net.add_link(self.N[1], self.L3, self.N[3]).add_destination(self.D2, self.N[3])
+        self._lay(self.N[1], self.L3, self.N[3]).add_destination(self.D2, self.N[3])
 
     def op_add_ramp(self):
         self.net.add_origin(self.O2, self.N[2])
@@ -214,10 +230,10 @@ class World:
 
     def op_replace_branch_dest(self):
         # only meaningful once the branch exists; otherwise it creates the branch with D2b directly
-        self.net.add_link(self.N[1], self.L3, self.N[3]).add_destination(self.D2b, self.N[3])
+        self._lay(self.N[1], self.L3, self.N[3]).add_destination(self.D2b, self.N[3])
 
     def op_replace_link(self):
-        self.net.add_link(self.N[0], self.L1b, self.N[1])
+        self._lay(self.N[0], self.L1b, self.N[1])
 
     # ----- expectation
     def expected(self):
